@@ -1,7 +1,8 @@
 import Afkak.Monitor.C14
-/-! # C14 — full-strength (trace-level) statements.  `C14_delays` and `C14_never_skips_trace` are proved
-(`AfkakProps/C14.lean`); `C14_attempt_limit` is NOT (yet) proved; `C14_reset_policy_trace` is refuted for configurations the
-constructor refuses (`C14_reset_policy_trace_counterexample`), the part that holds is `C14_reset_policy_trace_partial`. -/
+/-! # C14 — full-strength (trace-level) statements.  `C14_delays`, `C14_never_skips_trace` and `C14_attempt_limit` are proved
+(`AfkakProps/C14.lean`); `C14_reset_policy_trace` (for configurations the constructor
+accepts and OffsetResponses carrying Kafka offsets) is proved too; without those two restrictions the statement is refuted
+(`C14_reset_policy_trace_unrestricted_counterexample`). -/
 namespace Afkak.Props.Open.C14
 open Afkak.Consumer Afkak.Monitor
 
@@ -16,8 +17,27 @@ def C14_attempt_limit : Prop :=
   ∀ (cfg : Cfg) (script : List PEntry) (evs : List Ev),
     C14.attemptsOk cfg.maxAttempts cfg.reset (trace cfg script evs) = true
 
-/-- Out-of-range anywhere ⇒ the configured policy, as seen in the next request. -/
+/-- The reset-policy statement speaks of configurations the constructor accepts (`auto_offset_reset` is None,
+    OFFSET_EARLIEST or OFFSET_LATEST: anything else raises ValueError in `Consumer.__init__`) … -/
+def resetCfgOk (cfg : Cfg) : Bool :=
+  match cfg.reset with
+  | none => true
+  | some v => v == Afkak.Consts.offsetEarliest || v == Afkak.Consts.offsetLatest
+
+/-- … and of OffsetResponses that carry a Kafka offset (≥ 0; a broker never answers an offset look-up with a sentinel). -/
+def saneOffsetEvent : Ev → Bool
+  | .offsetOk _ off => decide (0 ≤ off)
+  | _ => true
+
+/-- Out-of-range anywhere ⇒ the configured policy, as seen in the next request: for every configuration the constructor
+    accepts and every event list whose OffsetResponses carry Kafka offsets. -/
 def C14_reset_policy_trace : Prop :=
+  ∀ (cfg : Cfg) (script : List PEntry) (evs : List Ev), resetCfgOk cfg = true → evs.all saneOffsetEvent = true →
+    C14.resetOk cfg.reset (trace cfg script evs) = true
+
+/-- The same without the two restrictions (configurations `Consumer.__init__` refuses with ValueError included): refuted,
+    `C14_reset_policy_trace_unrestricted_counterexample`.  Not a statement about the code: such a consumer cannot be built. -/
+def C14_reset_policy_trace_unrestricted : Prop :=
   ∀ (cfg : Cfg) (script : List PEntry) (evs : List Ev), C14.resetOk cfg.reset (trace cfg script evs) = true
 
 /-- A too-small answer never changes the offset of the next fetch request. -/
